@@ -144,6 +144,10 @@ type callerMem struct {
 	// the record buffer the []byte values are cut out of (whole buffer:
 	// content, the sentinel gaps and everything behind each element's len)
 	arena, arenaSnap []byte
+	// slice headers (data pointer, len, cap) of the elements of a [][]byte
+	// value slice: re-pointing an element at other memory with equal content
+	// is a modification of the caller's slice that no content comparison sees
+	hdrSnap [][3]uintptr
 }
 
 const spareElems = 3
@@ -217,6 +221,7 @@ func (m *callerMem) snapshot() {
 	if m.vals != nil {
 		m.valsSnap = deepCopy(fullSlice(m.vals)).Interface()
 	}
+	m.hdrSnap = m.headers()
 	m.optSnap = m.opts[0]
 	o := m.opts[0]
 	m.boolSnap = [4]int8{optBoolVal(o.DedupValue), optBoolVal(o.InnerPrefix), optBoolVal(o.LeafPrefix), optBoolVal(o.Complete)}
@@ -261,6 +266,25 @@ func (m *callerMem) recycle(r *Rng, pattern string) {
 	}
 }
 
+// headers returns (data pointer, len, cap) of every element of a [][]byte value
+// slice over its whole capacity; nil for other value types.
+func (m *callerMem) headers() [][3]uintptr {
+	vs, ok := m.vals.([][]byte)
+	if !ok {
+		return nil
+	}
+	vs = vs[:cap(vs)]
+	out := make([][3]uintptr, len(vs))
+	for i, v := range vs {
+		var p uintptr
+		if cap(v) > 0 {
+			p = uintptr(unsafe.Pointer(&v[:1][0]))
+		}
+		out[i] = [3]uintptr{p, uintptr(len(v)), uintptr(cap(v))}
+	}
+	return out
+}
+
 // cost: bytes compared by one evaluation of check().
 func (m *callerMem) cost() int64 {
 	c := int64(len(m.arena)) + 64*int64(cap(m.keys))
@@ -286,6 +310,13 @@ func (m *callerMem) check() string {
 				}
 			}
 			return "value slice changed"
+		}
+	}
+	if h := m.headers(); len(h) == len(m.hdrSnap) {
+		for i := range h {
+			if h[i] != m.hdrSnap[i] {
+				return fmt.Sprintf("value slice element %d was re-pointed: (data pointer, len, cap) changed from %v to %v", i, m.hdrSnap[i], h[i])
+			}
 		}
 	}
 	if !bytes.Equal(m.arena, m.arenaSnap) {
